@@ -401,6 +401,10 @@ impl Ctx {
     /// Run a case from a deterministic sweep: a failure is recorded as a violation directly.
     /// Returns false if the case failed.
     pub fn sweep_case(&mut self, sub: &str, cfg: &'static dyn Config, input: &Input, check: CheckFn) -> bool {
+        if self.sub_failed(sub) {
+            // one minimal failure per sub-check is reported; the rest of the sweep is skipped
+            return true;
+        }
         match self.run_case(sub, cfg, input, check, true) {
             Verdict::Fail { expected, observed } => {
                 self.record_violation(sub, cfg, input.clone(), expected, observed);
